@@ -199,7 +199,7 @@ def run_case(case):
             # the stored step times[1]-times[0] carries a relative error eps*|t|/dt; after K samples the interpolation
             # position is off by K times that (in samples), and neighbouring samples differ by up to 2*scale
             K = float(np.max(np.abs((tq - t[0]) / dts))) + n_all
-            cond += 4e-16 * float(np.max(np.abs(t))) / dts * K
+            cond += 2 * 4e-16 * float(np.max(np.abs(t))) / dts * K      # the code and the reference each carry this error, independently rounded
         if impl == "fft":
             model = fft_model(n, tq, t[0], dts, n_all)
             if nyq_in:
